@@ -569,7 +569,7 @@ func (h *harn) caller(c *kernel.Ctx, multi eth2wrap.Client, call *callRec) {
 	for i, iv := range call.invs {
 		if iv != nil && !iv.ended && call.scripts[i].kind == kHang {
 			c.Violate(prop, "f-no-leak", "hung-node-call-not-cancelled-after-return",
-				"call%d (%s) returned at %v but the call to hung node %d (invoked at %v) still had a live context at quiescence", call.id, methodName[call.m], retT, i, iv.startT)
+				"call%d (%s) returned at %v but the call to hung node %d (invoked at %v) still had a live context at quiescence in the same instant: %s", call.id, methodName[call.m], retT, i, iv.startT, describe(call, h.nP))
 		}
 	}
 	h.mu.Unlock()
